@@ -193,6 +193,7 @@ def run(P, R, tier):
     parent_union(P, R, HR.members['_build_hilbert_rtree'][1])
     tree_arith(P, R, HR, NR, meth)
     leaf_coverage(P, R, HR)
+    build_totality(P, R, HR)
     for m in (meth['intersects'], meth['covers_overlaps']):
         cursor_discipline(P, R, m)
         pairing(P, R, m)
@@ -380,6 +381,7 @@ def builder(P, R, HR):
         raise AnalysisError('C03.d: builder not found')
     f = b[1]
     n_checked = 0
+    page_decided = leaf_page_small_scope(P, R, HR)
     # reductions: list comprehensions `[RED(X[:, d]) for d in range(n)]` and `[RED(X[:, d + n]) ...]`
     for node in walk_own(f.node):
         if isinstance(node, ast.ListComp) and len(node.generators) == 1 and isinstance(node.elt, ast.Call):
@@ -415,7 +417,8 @@ def builder(P, R, HR):
                     f'{red} taken over the {"upper" if role_ub else "lower"}-bound columns `{norm(colexpr)}`: boxes are not the union of their rows')
             R.check(nanaware, 'C03.c', f, node, f'reduction `{fn}` ignores NaN rows',
                     f'reduction `{norm(call)}` propagates NaN: one missing/empty geometry turns the page/total box into NaN and changes the answer for other rows')
-    R.floor('C03.d', 'reductions in the builder', n_checked, 6)
+    # the page reduction is decided by evaluation when the evaluator models it; the idiom rules above then only have to cover the total bounds and the parent union
+    R.floor('C03.d', 'reductions in the builder', n_checked, 4 if page_decided else 6)
     # the row layout: mins + maxes
     ncat = 0
     for node in walk_own(f.node):
@@ -427,7 +430,7 @@ def builder(P, R, HR):
                 ncat += 1
                 ok = 'min' in lt and 'max' in rt and 'max' not in lt and 'min' not in rt
                 R.check(ok, 'C03.d', f, node, 'row layout is (lower bounds..., upper bounds...)', f'row built as `{norm(node.value)}`: not (mins + maxes)')
-    R.floor('C03.d', 'row constructions', ncat, 2)
+    R.floor('C03.d', 'row constructions', ncat, 1 if page_decided else 2)
     # parent validity: children with NaN boxes are skipped
     inner = [s for s in walk_own(f.node) if isinstance(s, ast.While)]
     ok = False
@@ -675,6 +678,68 @@ def tree_arith(P, R, HR, NR, meth):
             f'builder and reader disagree on the node <-> key-slice mapping: {bad[:3]}', construct='leaf_start / _start_index / _stop_index', counterexamples=bad[:6])
 
 
+def leaf_page_small_scope(P, R, HR):
+    """C03.d (exhaustive within the scope): the body of the builder's page loop is interpreted by E-VEC for one page of up to 3 rows (1-d boxes over
+    {-1, 0, 1}, and 2 rows of 2-d boxes), every row either a valid box or a NaN row: the leaf row written must be (min of the valid lower bounds ...,
+    max of the valid upper bounds ...) and all-NaN when the page has no valid row - however the reduction is written (numpy reductions, a helper, a loop).
+    Returns True when the evaluation decided the question."""
+    import itertools as _it
+    import veceval
+    f = HR.members['_build_hilbert_rtree'][1]
+    page_loop = None
+    for s in walk_own(f.node):
+        if isinstance(s, ast.For) and isinstance(s.target, ast.Name) and isinstance(s.iter, ast.Call) and norm(s.iter.func) in ('range', 'prange') and len(s.iter.args) == 1 \
+                and any(isinstance(x, ast.Assign) and isinstance(x.targets[0], ast.Subscript) and 'bounds_tree' in norm(x.targets[0].value) for x in ast.walk(s)):
+            page_loop = s
+    if page_loop is None:
+        return False
+    tree_name = next(norm(x.targets[0].value) for x in ast.walk(page_loop) if isinstance(x, ast.Assign) and isinstance(x.targets[0], ast.Subscript) and 'bounds_tree' in norm(x.targets[0].value))
+    nan = float('nan')
+    cases = []
+    vals = (-1, 0, 1)
+    boxes1 = [[lo, hi] for lo in vals for hi in vals if lo <= hi] + [[nan, nan]]
+    for k in (1, 2, 3):
+        for rows in _it.product(boxes1, repeat=k):
+            cases.append((1, [list(r) for r in rows]))
+    boxes2 = [[x0, y0, x1, y1] for x0 in vals for x1 in vals if x0 <= x1 for y0 in vals for y1 in vals if y0 <= y1] + [[nan] * 4]
+    for k in (1, 2):
+        for rows in _it.product(boxes2, repeat=k):
+            cases.append((2, [list(r) for r in rows]))
+    bad, total, undec = [], 0, None
+    for n, rows in cases:
+        total += 1
+        k = len(rows)
+        env = {'page': 0, 'page_size': k, 'n': n, 'leaf_start': 0, 'sorted_bounds': [list(r) for r in rows], tree_name: [[nan] * (2 * n)], page_loop.target.id: 0}
+        ev = veceval.VecEval(P, f, env, k)
+        try:
+            ev.block(page_loop.body)
+        except veceval.Unsupported as e_:
+            undec = str(e_)
+            break
+        except veceval.Returned:
+            undec = 'return inside the page loop'
+            break
+        except (IndexError, TypeError, ValueError, ZeroDivisionError) as e_:
+            undec = f'{type(e_).__name__}: {e_}'
+            break
+        got = ev.env[tree_name][0]
+        valid = [r for r in rows if not any(x != x for x in r)]
+        want = ([min(r[d] for r in valid) for d in range(n)] + [max(r[d + n] for r in valid) for d in range(n)]) if valid else [nan] * (2 * n)
+        same = isinstance(got, (list, tuple)) and len(got) == len(want) and all((a != a and b != b) or a == b for a, b in zip(got, want))
+        if not same:
+            bad.append({'rows of the page': rows, 'leaf box written': [None if (isinstance(x, float) and x != x) else x for x in got] if isinstance(got, (list, tuple)) else str(got),
+                        'wanted': [None if x != x else x for x in want]})
+    if undec:
+        R.abstain('C03.d', f, page_loop, f'the page loop uses a construct the small-scope evaluator does not model ({undec})', construct='leaf page box small-scope')
+        return False
+    R.count('typed_ops', total)
+    R.exhaustive_sites['C03.d leaf page box: pages of <= 3 rows (1-d) / <= 2 rows (2-d), boxes over {-1, 0, 1} and NaN rows'] = True
+    R.check(not bad, 'C03.d', f, page_loop, f'every leaf box is the union of the valid rows of its page, NaN when the page has none ({total} pages)',
+            f'the leaf box differs from the union of the valid rows of its page on {len(bad)} of {total} pages, e.g. {bad[:2]}: queries and total_bounds are answered from wrong boxes',
+            construct='leaf page box small-scope', counterexamples=bad[:5])
+    return True
+
+
 class _Unk(Exception):
     pass
 
@@ -743,6 +808,194 @@ def _ceval(e, env):
         except (ValueError, OverflowError, TypeError):
             raise _Unk('arithmetic error')
     raise _Unk(norm(e))
+
+
+class _Rows:
+    """The (N, 2 * d) array of input boxes, as far as sizing arithmetic is concerned."""
+    def __init__(self, N, d):
+        self.N, self.d = N, d
+
+
+def _geval(f, e, env, depth=0):
+    """Concrete evaluation of guard / argument expressions over the build parameters (p, page_size, the shape of the boxes).  Raises _Unk."""
+    if depth > 12:
+        raise _Unk('depth')
+    if isinstance(e, ast.Name):
+        if e.id in env:
+            return env[e.id]
+        g_, d_ = astq.unique_def(f, e.id)
+        if d_ is None or isinstance(d_, tuple) or g_ is not f:
+            raise _Unk(e.id)
+        return _geval(f, d_, env, depth + 1)
+    if isinstance(e, ast.Constant):
+        if isinstance(e.value, (int, float, str)) or e.value is None:
+            return e.value
+        raise _Unk('constant')
+    if isinstance(e, ast.Attribute):
+        if e.attr == 'shape':
+            v = _geval(f, e.value, env, depth + 1)
+            if isinstance(v, _Rows):
+                return (v.N, 2 * v.d)
+        if e.attr == 'size':
+            v = _geval(f, e.value, env, depth + 1)
+            if isinstance(v, _Rows):
+                return v.N * 2 * v.d
+        if e.attr == 'ndim':
+            v = _geval(f, e.value, env, depth + 1)
+            if isinstance(v, _Rows):
+                return 2
+        raise _Unk(norm(e))
+    if isinstance(e, ast.Subscript):
+        v = _geval(f, e.value, env, depth + 1)
+        i = _geval(f, e.slice, env, depth + 1)
+        if isinstance(v, tuple) and isinstance(i, int) and -len(v) <= i < len(v):
+            return v[i]
+        raise _Unk(norm(e))
+    if isinstance(e, ast.UnaryOp):
+        v = _geval(f, e.operand, env, depth + 1)
+        if isinstance(e.op, ast.Not):
+            return not v
+        if isinstance(e.op, ast.USub) and isinstance(v, (int, float)):
+            return -v
+        raise _Unk(norm(e))
+    if isinstance(e, ast.BoolOp):
+        vals = []
+        for x in e.values:
+            v = _geval(f, x, env, depth + 1)
+            if isinstance(e.op, ast.And) and not v:
+                return v
+            if isinstance(e.op, ast.Or) and v:
+                return v
+            vals.append(v)
+        return vals[-1]
+    if isinstance(e, ast.Compare):
+        left = _geval(f, e.left, env, depth + 1)
+        for op, c in zip(e.ops, e.comparators):
+            right = _geval(f, c, env, depth + 1)
+            if isinstance(left, _Rows) or isinstance(right, _Rows):
+                raise _Unk('comparison of arrays')
+            t = type(op)
+            try:
+                ok = {ast.Lt: lambda: left < right, ast.LtE: lambda: left <= right, ast.Gt: lambda: left > right, ast.GtE: lambda: left >= right,
+                      ast.Eq: lambda: left == right, ast.NotEq: lambda: left != right, ast.Is: lambda: left is right, ast.IsNot: lambda: left is not right}[t]()
+            except (KeyError, TypeError):
+                raise _Unk(norm(e))
+            if not ok:
+                return False
+            left = right
+        return True
+    if isinstance(e, ast.BinOp):
+        a, b = _geval(f, e.left, env, depth + 1), _geval(f, e.right, env, depth + 1)
+        if not isinstance(a, (int, float)) or not isinstance(b, (int, float)):
+            raise _Unk(norm(e))
+        return _ceval(ast.BinOp(left=ast.Constant(a), op=e.op, right=ast.Constant(b)), {'__rows': set()})
+    if isinstance(e, ast.Call):
+        fn = norm(e.func)
+        if isinstance(e.func, ast.Attribute) and e.func.attr in ('astype', 'copy', 'view') :
+            v = _geval(f, e.func.value, env, depth + 1)
+            if isinstance(v, _Rows):
+                return v
+        if fn in ('np.asarray', 'np.ascontiguousarray', 'np.array', 'np.atleast_2d') and e.args:
+            v = _geval(f, e.args[0], env, depth + 1)
+            if isinstance(v, _Rows):
+                return v
+        args = [_geval(f, a, env, depth + 1) for a in e.args]
+        if fn == 'len' and len(args) == 1:
+            if isinstance(args[0], _Rows):
+                return args[0].N
+            if isinstance(args[0], tuple):
+                return len(args[0])
+        if all(isinstance(a, (int, float)) for a in args) and args:
+            return _ceval(ast.Call(func=e.func, args=[ast.Constant(a) for a in args], keywords=[]), {'__rows': set()})
+    raise _Unk(norm(e))
+
+
+def build_totality(P, R, HR):
+    """C03.l: building the index succeeds for every input of the property's domain (d in {1,2,3}, p in 1..31, page_size >= 1, any number of rows): no
+    `raise` reachable from HilbertRtree.__init__ has a guard that holds for such an input.  The guards are evaluated concretely along the call
+    chain (arguments bound at every call site); a guard that depends on anything but p, page_size and the shape of the boxes is left undecided."""
+    init = HR.members.get('__init__')
+    if not init:
+        return
+    root = init[1]
+    raises = {}          # (func key, raise node) -> [configs that trigger]
+    examined = set()
+    undecided = {}
+
+    def guards_of(g, r):
+        out = []
+        q = r
+        while getattr(q, '_parent', None) is not None and q._parent is not g.node:
+            par = q._parent
+            if isinstance(par, ast.If):
+                out.append((par.test, q in par.body))
+            elif isinstance(par, (ast.For, ast.While, ast.Try, ast.With)):
+                return None       # inside a loop / handler: not evaluated
+            q = par
+        # early exits before the raise on the same level are not modelled: only statements directly in the function body or nested ifs
+        return out
+
+    def visit(g, env, cfg, depth, seen):
+        if depth > 4 or g.key in seen:
+            return
+        seen = seen | {g.key}
+        for r in [x for x in walk_own(g.node) if isinstance(x, ast.Raise)]:
+            gs = guards_of(g, r)
+            k = (g.key, r)
+            examined.add(k)
+            if gs is None:
+                undecided[k] = 'inside a loop or handler'
+                continue
+            try:
+                hit = all(bool(_geval(g, t, env)) == pol for t, pol in gs) if gs else True
+            except _Unk as e:
+                undecided[k] = str(e)
+                continue
+            if hit:
+                raises.setdefault(k, (g, r, []))[2].append(cfg)
+        for c, h in P.callees(g):
+            if isinstance(h.node, ast.Lambda):
+                continue
+            env2 = {}
+            params = list(h.params)
+            if h.cls is not None and h.kind == 'method' and params and params[0] in ('self', 'cls') and isinstance(c.func, ast.Attribute):
+                params = params[1:]
+            for p_, a_ in zip(params, c.args):
+                try:
+                    env2[p_] = _geval(g, a_, env)
+                except _Unk:
+                    pass
+            for kw in c.keywords:
+                if kw.arg in h.params:
+                    try:
+                        env2[kw.arg] = _geval(g, kw.value, env)
+                    except _Unk:
+                        pass
+            visit(h, env2, cfg, depth + 1, seen)
+
+    params = root.params[1:]
+    if len(params) < 3:
+        R.abstain('C03.l', root, None, 'constructor signature not in the recognised form (bounds, p, page_size)')
+        return
+    for d in (1, 2, 3):
+        for p_ in range(1, 32):
+            for N in (1, 3):
+                for ps in (1, 4):
+                    env = {params[0]: _Rows(N, d), params[1]: p_, params[2]: ps}
+                    visit(root, env, f'd={d}, p={p_}, rows={N}, page_size={ps}', 0, frozenset())
+    R.floor('C03.l', 'raise statements reachable from the index constructor', len(examined), 2)
+    for k in examined:
+        g = next(x for x in P.all_funcs() if x.key == k[0])
+        r = k[1]
+        if k in raises:
+            cfgs = raises[k][2]
+            R.bad('C03.l', g, r, f'`{norm(r)[:70]}` in {g.qualname} is reached for inputs of the property\'s domain, e.g. {cfgs[:3]} ({len(cfgs)} of the evaluated configurations): '
+                                 'building the index fails although the answer must not depend on p, the page size or the dimension', construct=f'{g.qualname}: raise in domain')
+        elif k in undecided:
+            R.abstain('C03.l', g, r, f'guard of `{norm(r)[:60]}` not evaluated ({undecided[k]})', construct=f'{g.qualname}: raise in domain')
+        else:
+            R.ok('C03.l', g, r, f'the guard of `{norm(r)[:60]}` holds for no (d, p, rows, page_size) of the domain', construct=f'{g.qualname}: raise in domain')
+    R.exhaustive_sites['C03.l raise guards: d in 1..3 x p in 1..31 x rows in {1,3} x page_size in {1,4}'] = True
 
 
 def leaf_coverage(P, R, HR):
